@@ -160,7 +160,7 @@ def split_hex_blocks(text):
 # ---------------------------------------------------------------------------
 REFCODE_POOL = ["BD8D1234", "BD8D1235", "BD8D5678", "BD201234", "BDE51234", "BC8A0001", "BC201234", "110015F0",
                 "110015F1", "B7001111", "BD8D12AB", "B181F02A", "BD751234", "11201234", "BC8D1234", "B7001111 LIC",
-                "BD8D1234 00000002"]
+                "BD8D1234 00000002", "B7001111 vios1", "BD8D5678 node0-a"]
 
 
 def gen_store(rng, n, *, style=None, ext=None, id_magnitude=None, refpool=None, with_src=None, max_sections=5,
